@@ -3,8 +3,10 @@ package main
 import (
 	"fmt"
 	"net"
+	"os"
 	"sort"
 	"sync"
+	"syscall"
 	"time"
 
 	"github.com/anacrolix/dht/v2"
@@ -28,6 +30,7 @@ type c16node struct {
 	lists []int // indexes of nodes it names
 	// announce_peer behaviour: ok silent hang error
 	annKind string
+	errno   syscall.Errno // annKind "writefail": every write of announce_peer to this node fails with it
 }
 
 type c16pending struct {
@@ -60,7 +63,8 @@ func c16run(c *evid.Ctx, r *gen.Rand, run int) {
 		}
 		nd := &c16node{addr: &net.UDPAddr{IP: ip, Port: r.Port()}, id: r.IDWithPrefix(ih, r.Intn(20)), token: fmt.Sprintf("token-of-%d-%x", i, r.Bytes(3))}
 		nd.kind = gen.Pick(r, []string{"token", "token", "token", "token", "token", "notoken", "emptytoken", "values", "error", "silent"})
-		nd.annKind = gen.Pick(r, []string{"ok", "ok", "ok", "ok", "silent", "error"})
+		nd.annKind = gen.Pick(r, []string{"ok", "ok", "ok", "ok", "silent", "error", "writefail"})
+		nd.errno = gen.Pick(r, []syscall.Errno{syscall.ENOBUFS, syscall.ENOBUFS, syscall.EAGAIN, syscall.EPERM, syscall.ENETUNREACH, syscall.EMSGSIZE})
 		if nd.kind == "emptytoken" {
 			nd.token = ""
 		}
@@ -118,6 +122,7 @@ func c16run(c *evid.Ctx, r *gen.Rand, run int) {
 	}
 	var announces []annSeen
 	scrapeWrong := 0
+	writeFails := 0
 	var n *srv.Node
 	shortFor := func(dest string) bool {
 		nd := byAddr[dest]
@@ -196,6 +201,15 @@ func c16run(c *evid.Ctx, r *gen.Rand, run int) {
 				case hangSeen <- struct{}{}:
 				default:
 				}
+			case nd.annKind == "writefail":
+				// the socket refuses the datagram, every time it is offered: the announce still ends
+				gmu.Lock()
+				gdest[curGoroutine()] = "short"
+				gmu.Unlock()
+				mu.Lock()
+				writeFails++
+				mu.Unlock()
+				return &net.OpError{Op: "write", Net: "udp", Addr: d.To, Err: os.NewSyscallError("sendto", nd.errno)}
 			case nd.annKind == "error":
 				n.Conn.Inject(srv.ErrorMsg(t, 203, "bad token"), d.To)
 			default:
@@ -356,6 +370,9 @@ func c16run(c *evid.Ctx, r *gen.Rand, run int) {
 		return
 	}
 	c.Count("announces that finished", 1)
+	mu.Lock()
+	c.Count("announce_peer writes refused by the socket (persistent errno)", writeFails)
+	mu.Unlock()
 	mu.Lock()
 	annAtFinish := len(announces)
 	mu.Unlock()
